@@ -862,6 +862,32 @@ def index_history_stream(ctx, drv, case, cfg, p0, H, W, rng):
         ops.append({"kind": "forward"})
         real.append(("forward", None, None))
         shown.append("forward")
+        cur = np.stack([np.clip(cur[:, 0], 0, H - 1), np.clip(cur[:, 1], 0, W - 1)], axis=1)
+    # growth 6, fixed per configuration index (not seed luck): after a forward pass has filled the cache, ONE assignment whose change a
+    # too-wide / too-cheap refresh guard overlooks, then a forward pass: `permute` = the same positions in reversed order (same set, same
+    # sums), `single-last` = only the last position moves by whole pixels, `balanced` = one coordinate +1 px and another -1 px (sums kept)
+    forced = ("permute", "single-last", "balanced")[int(case.get("index", 0)) % 3]
+    new = cur.copy()
+    if forced == "permute":
+        new = cur[::-1].copy()
+        if np.array_equal(np.round(new), np.round(cur)):
+            forced = "single-last"
+    if forced == "single-last":
+        new = cur.copy()
+        new[n - 1, 0] = cur[n - 1, 0] - 2.0 if cur[n - 1, 0] >= 2.0 else cur[n - 1, 0] + 2.0
+    elif forced == "balanced":
+        i, j = 0, n - 1
+        new[i, 0] = cur[i, 0] + 1.0 if cur[i, 0] + 1.0 <= H - 1 else cur[i, 0] - 1.0
+        d = new[i, 0] - cur[i, 0]
+        new[j, 1] = cur[j, 1] - d if 0 <= cur[j, 1] - d <= W - 1 else cur[j, 1]
+    if np.array_equal(new.astype(np.float32).astype(np.float64), new) and not np.array_equal(new, cur):
+        ctx.dist[f"positions.history.forced:{forced}"] += 1
+        ops.append({"kind": "assign", "positions": [[cp.frac_str(a), cp.frac_str(b)] for a, b in new.tolist()]})
+        real.append(("assign", "ndarray", new.astype(np.float32)))
+        shown.append(f"assign[{forced}]")
+        ops.append({"kind": "forward"})
+        real.append(("forward", None, None))
+        shown.append("forward")
     trace = ask(drv, {"op": "index_history", "positions": [[cp.frac_str(a), cp.frac_str(b)] for a, b in start.tolist()],
                       "H": H, "W": W, "R0": r0, "R1": r1, "ops": ops})
     import torch
